@@ -10,10 +10,11 @@ CONSTANTS
   MaxCount = 2
   TickSteps = {1, 3}
   MaxTracked = 2
+  StaleMark = "ignore"
   SweepCap = 0
   IndexMode = "exact"
 VIEW view
 CONSTRAINT Bounded
 INVARIANTS TypeOK OneRecordPerRegistration IndexExact PostSweepExact ExpiredNeverMatchesAfterSweep
-PROPERTIES NeverRemovedEarly ValidMonotone
+PROPERTIES OnlyIngestAdds NeverRemovedEarly ValidMonotone
 CHECK_DEADLOCK FALSE
